@@ -3,6 +3,7 @@
 package digest
 
 import (
+	"bytes"
 	vnd "github.com/buildbarn/bb-storage/internal/verifnd"
 )
 
@@ -218,4 +219,35 @@ func Verif_C20_D3_FieldMutations() {
 			vnd.Cover("write-mutation-accepted")
 		}
 	}
+}
+
+// Verif_C20_D3_CompactBinarySizes: the compact binary form (used in NFSv4 file handles and
+// the like) with an ARBITRARY size field: the function enum and hash of a valid digest,
+// followed by each of nine size encodings (zero, small and extreme positive and negative values, a truncated varint) where the zig-zag varint size goes. The parser
+// either rejects the input or returns a digest that is as valid as one made by NewDigest:
+// non-negative size, the instance name it was asked to use, and a string form that
+// NewDigestFromByteStreamReadPath-style accessors agree with.
+func Verif_C20_D3_CompactBinarySizes() {
+	f := verifC20Funcs[0]
+	d := verifC20NewDigest("inst", f, verifC20Hash(f.hexLen, nil), 5)
+	cb := d.GetCompactBinary()
+	// strip the size varint (5 encodes as one byte) and append symbolic bytes instead
+	raw := append([]byte(nil), cb[:len(cb)-1]...)
+	// zig-zag varints of 0, -1, 1, -64, 64, -128, MaxInt64, MinInt64, and a truncated one
+	tails := [][]byte{{0x00}, {0x01}, {0x02}, {0x7f}, {0x80, 0x01}, {0xff, 0x01},
+		{0xfe, 0xff, 0xff, 0xff, 0xff, 0xff, 0xff, 0xff, 0xff, 0x01},
+		{0xff, 0xff, 0xff, 0xff, 0xff, 0xff, 0xff, 0xff, 0xff, 0x01}, {0x80}}
+	raw = append(raw, tails[vnd.Choose(len(tails))]...)
+	r := bytes.NewBuffer(raw)
+	got, err := d.GetInstanceName().NewDigestFromCompactBinary(r)
+	if err != nil {
+		vnd.Cover("compact-rejected")
+		return
+	}
+	vnd.Cover("compact-accepted")
+	vnd.Assert(got.GetSizeBytes() >= 0, "the compact binary parser produced a digest with a negative size")
+	vnd.Assert(got.GetInstanceName().String() == "inst", "the compact binary parser produced a digest whose instance name is not the one it was given (degenerate digest string)")
+	vnd.Assert(got.GetHashString() == d.GetHashString(), "the compact binary parser changed the hash")
+	again, err2 := got.GetDigestFunction().NewDigest(got.GetHashString(), got.GetSizeBytes())
+	vnd.Assert(err2 == nil && again == got, "a digest produced by the compact binary parser is not one NewDigest would produce")
 }
